@@ -143,6 +143,10 @@ type RIB struct {
 	// referred to. The map is keyed by the operation ID.
 	pendingEntries map[uint64]*pendingEntry
 
+	// postChangeHook is the hook that was registered using SetPostChangeHook. It is
+	// stored such that it can be applied to network instances that are created later.
+	postChangeHook RIBHookFn
+
 	// resolvedEntryHook is a function that is called for all entries that
 	// can be fully resolved in the RIB. In the current implementation it
 	// is called only for IPv4 entries.
@@ -340,6 +344,9 @@ type pendingEntry struct {
 // SetPostChangeHook assigns the supplied hook to all network instance RIBs within
 // the RIB structure.
 func (r *RIB) SetPostChangeHook(fn RIBHookFn) {
+	r.nrMu.Lock()
+	defer r.nrMu.Unlock()
+	r.postChangeHook = fn
 	for _, nir := range r.niRIB {
 		nir.mu.Lock()
 		nir.postChangeHook = fn
@@ -380,6 +387,9 @@ func (r *RIB) AddNetworkInstance(name string) error {
 	}
 
 	r.niRIB[name] = NewRIBHolder(name, rhOpt...)
+	// Network instances created after the hook was registered are also
+	// subject to it.
+	r.niRIB[name].postChangeHook = r.postChangeHook
 	return nil
 }
 
